@@ -183,6 +183,21 @@ def show_lit(l):
     return str(l)
 
 
+def _range_conj(facts, lit):
+    """`(a..=b).contains(&x)` holding is the conjunction `!(x < a)` and `!(b < x)` (`a..b`: `x < b`); the literal is
+    kept as well, so that rules written against either form find theirs"""
+    if lit[0] == "is" and lit[2] is True and lit[1][0] == "call" and lit[1][1].endswith("::contains") and len(lit[1][2]) == 2:
+        r, x = lit[1][2]
+        if r[0] == "call" and r[1].endswith("RangeInclusive::new") and len(r[2]) == 2:
+            a, b = r[2]
+            return (lit, norm_lit(facts, mk_bin("Lt", x, a), False), norm_lit(facts, mk_bin("Lt", b, x), False))
+        if r[0] == "adt" and r[1].endswith("Range::Range") and len(r[2]) == 2:
+            d = dict(r[2])
+            if "start" in d and "end" in d:
+                return (lit, norm_lit(facts, mk_bin("Lt", x, d["start"]), False), norm_lit(facts, mk_bin("Lt", x, d["end"]), True))
+    return (lit,)
+
+
 # ------------------------------------------------------------------------------ graph
 class PG:
     MAX_NODES = 20000
@@ -220,6 +235,9 @@ class PG:
                     cands[l] = d
 
         def const_or_tracked(dd):
+            if dd[2] == "call":
+                e = a.expr_call(dd[3], (dd[0], "term"))
+                return e[0] == "enum"   # e.g. Option::from_residual(..), folded to None
             if dd[2] != "assign":
                 return False
             rv = dd[3]
@@ -232,8 +250,8 @@ class PG:
                 if pl["l"] in out:
                     return True
             e = a.expr_rvalue(rv, (dd[0], dd[1]))
-            if e[0] == "adt" and rv.get("agg") == "adt" and (e[1].startswith("core::option::Option::") or e[1].startswith("core::result::Result::") or
-                                                             ((self.facts.adt(rv.get("adt")) or {}).get("kind") == "enum")):
+            if e[0] == "adt" and (rv.get("agg") == "adt" or "use" in rv) and (e[1].startswith("core::option::Option::") or e[1].startswith("core::result::Result::") or
+                                                             ((self.facts.adt(rv.get("adt") or e[1].rsplit("::", 1)[0]) or {}).get("kind") == "enum")):
                 # `if c { Some(v) } else { None }`: which variant was built is carried along the path
                 return True
             return e[0] in ("str", "int", "enum", "bool", "bytes", "item")
@@ -357,7 +375,7 @@ class PG:
                 lit = norm_lit(self.facts, e, val)
                 if lit == ("const", False):
                     continue
-                out.append((tgt, () if lit[0] == "const" else (lit,)))
+                out.append((tgt, () if lit[0] == "const" else _range_conj(self.facts, lit)))
             return out
         # integer / discriminant switch
         adt = None
